@@ -22,6 +22,14 @@ def draw_conv_options(data, d, symmetric_only=False, unit_stride=False, max_filt
     """Returns a JSON-able dict:
     fshape, padding (str|int|list of pairs|None), pad_kind, is_torus (bool|list), stride, rhs, lhs (None|list), shape."""
     kinds = pad_kinds or [k for k in PAD_KINDS if not (symmetric_only and k == "explicit_asym")]
+    if "TORUS" in kinds and (fixed_fshape is None or fixed_fshape[0] % 2 == 1) and data.draw(st.integers(0, 9), label="dilated_torus_class") == 0:
+        # forced class: fully toroidal image whose extents are multiples of an isotropic filter dilation >= 2
+        r = data.draw(st.sampled_from([2, 2, 3]), label="r")
+        m = fixed_fshape[0] if fixed_fshape is not None else 3
+        shape = [r * data.draw(st.integers(1, 2 if (d == 2 or r == 2) else 1), label="multiple") for _ in range(d)]
+        return {"fshape": [m] * d, "pad_kind": "TORUS", "padding": data.draw(st.sampled_from(["TORUS", None]), label="torus_or_none"),
+                "is_torus": data.draw(st.sampled_from([True, [True] * d]), label="torus_repr"), "stride": 1,
+                "rhs": data.draw(st.sampled_from([r, [r] * d]), label="rhs_repr"), "lhs": None, "shape": shape}
     pad_kind = data.draw(st.sampled_from(kinds), label="pad_kind")
     literal = pad_kind in ("int", "explicit_sym", "explicit_asym")
     # filter extents: even only with literal padding
